@@ -15,7 +15,7 @@ import Mathlib.Tactic.Ring
 import Mathlib.Tactic.Linarith
 
 namespace Optyx.Props.C08
-open Optyx Optyx.Py
+open Optyx Optyx.Py Optyx.Py.LPP
 
 variable {K : Type} [Field K] [LinearOrder K] [IsStrictOrderedRing K]
 
